@@ -103,11 +103,24 @@ func run(r *ev.Run) {
 				cat, cok2 := modes[0].corpus.PermanodeAnyTime(pn)
 				modes[0].ix.RUnlock()
 				if !mt.Equal(cmt) || ok != cok || !at.Equal(cat) || ok2 != cok2 {
-					fmt.Printf("DEBUG %s del=%v model mod=%v/%v any=%v/%v corpus mod=%v/%v any=%v/%v\n", pn.String()[:14], w.del[pn], mt, ok, at, ok2, cmt, cok, cat, cok2)
+					fmt.Printf("NOTE DEBUG %s del=%v model mod=%v/%v any=%v/%v corpus mod=%v/%v any=%v/%v\n", pn.String()[:14], w.del[pn], mt, ok, at, ok2, cmt, cok, cat, cok2)
 					for _, c := range w.claims {
 						if c.PN == pn {
-							fmt.Printf("DEBUG    %s %s=%s @%v\n", c.Kind, c.Attr, c.Value, c.Date)
+							fmt.Printf("NOTE DEBUG    %s %s=%s @%v\n", c.Kind, c.Attr, c.Value, c.Date)
 						}
+					}
+				}
+			}
+		}
+		if pfx := os.Getenv("VERIF_DEBUG_PN"); pfx != "" {
+			for _, pn := range w.pns {
+				if !strings.HasPrefix(pn.String(), pfx) {
+					continue
+				}
+				fmt.Printf("NOTE DEBUG %s del=%v\n", pn, w.del[pn])
+				for _, c := range w.claims {
+					if c.PN == pn {
+						fmt.Printf("NOTE DEBUG    %s %s=%s @%v signer=%v ref=%s\n", c.Kind, c.Attr, c.Value, c.Date.UTC(), c.Signer, c.Ref)
 					}
 				}
 			}
